@@ -122,6 +122,46 @@ Fixpoint run_live_ops (p : proto) (m : mode) (tmo : option N) (st : cstate) (ops
   | op :: r => let '(o, st') := run_live_op p m tmo st op in o :: run_live_ops p m tmo st' r
   end.
 
+(* ---- E2E lines: <proto> <slave> ops; op = call|typed <request> <service reply>
+   The real client talking to the real server of the same transport.  In the model the exchange is the composition of the
+   two machines: the bytes the client transmits for the request are what the server connection reads; the bytes the server
+   writes are what the client's call then reads.  (Both machines are deterministic, so the transmitted bytes can be obtained
+   from a run of the call that is given nothing to read.)  The server connection keeps its own state across operations. *)
+Definition tev_wrote (t : tev) : list N := match t with TWrote b => b | _ => [] end.
+Definition tev_is_call (t : tev) : bool := match t with TCall _ _ => true | _ => false end.
+
+Definition e2e_exchange (p : proto) (m : mode) (st : cstate) (typed_ : bool) (req : request) (svc : list svc_reply)
+  : (call_result + typed_result) * list tev * cstate :=
+  let st0 := reset_acc st in
+  let sent := accepted (wio_ (snd (call p m st0 req None))) in
+  let tr := serve_conn p m (match sent with [] => [] | _ => [RData sent] end) [] [] svc in
+  let reply := concat (map tev_wrote tr) in
+  let st1 := push_rq st0 (match reply with [] => [] | _ => [RData reply] end) in
+  let calls := filter tev_is_call tr in
+  if typed_ then let '(res, st2) := typed p m st1 req None in (inr res, calls, st2)
+  else let '(res, st2) := call p m st1 req None in (inl res, calls, st2).
+
+Definition run_e2e_op (p : proto) (m : mode) (st : cstate) (op : list (list N)) : list N * cstate :=
+  match op with
+  | [h; rq_; sv] =>
+      match parse_req rq_, parse_list parse_svc sv with
+      | Some req, Some svc =>
+          if is h "call" || is h "typed" then
+            let '(res, calls, st2) := e2e_exchange p m st (is h "typed") req svc in
+            ((match res with inl c => show_call_result c | inr t => show_typed_result t end) ++ s2l " seen=" ++
+             (match calls with [] => s2l "-" | _ => join [43] (map show_tev calls) end), st2)
+          else (err "e2eop", st)
+      | _, _ => (err "e2eargs", st)
+      end
+  | _ => (err "e2eoplen", st)
+  end.
+
+Fixpoint run_e2e_ops (p : proto) (m : mode) (st : cstate) (ops : list (list (list N))) : list (list N) :=
+  match ops with
+  | [] => []
+  | op :: r => let '(o, st') := run_e2e_op p m st op in o :: run_e2e_ops p m st' r
+  end.
+
 Definition run_line (m : mode) (line : list N) : list N :=
   match words_of line with
   | [h; a] =>
@@ -163,6 +203,15 @@ Definition run_line (m : mode) (line : list N) : list N :=
             | None => err "slave"
             end
         | _, _ => err "cli"
+        end
+      else if is h "E2E" then
+        match parse_proto pr, rest with
+        | Some p, sl :: ops =>
+            match parse_dec sl with
+            | Some s => join (s2l " ; ") (run_e2e_ops p m (client_new p s) (split_ops ops []))
+            | None => err "slave"
+            end
+        | _, _ => err "e2e"
         end
       else if is h "SYNC" || is h "ASYNC" then
         match parse_proto pr, rest with
